@@ -1166,6 +1166,15 @@ def m_int(ev, vals, n, s, path, gens):
     ty, meth = _int_method(path)
     w, signed = T.ty_info(ty)
     a = vals[0]
+    if meth in ("from_le_bytes", "from_ne_bytes", "from_be_bytes"):
+        arr = ev.deref_val(a, s)
+        if isinstance(arr, tuple) and arr and arr[0] == "array" and len(arr[1]) * 8 == w and all(_w(x) == 8 for x in arr[1]):
+            bs = list(arr[1])[::-1] if meth == "from_be_bytes" else list(arr[1])      # little-endian target (recorded assumption)
+            acc = T.K(w, 0)
+            for i, x in enumerate(bs):
+                acc = T.op("or", w, acc, T.shift("shl", w, T.zext(w, x), T.K(8, 8 * i)))
+            return [(acc, s)]
+        return None
     if _w(a) != w:
         return None
     b = vals[1] if len(vals) > 1 else None
